@@ -137,3 +137,6 @@ def run(rep):
         rep.violation({"check": "trace", "form": "ui", "text": text, "lang": lang, "cfg": CFG, "line_chars": len(text), "lexemes": lex, "ui_tokens": toks, "defects": d,
                        "feat": {"form": "ui", "failure": what, "multibyte": first_mb >= 0, "has_comment": "#" in text},
                        "class": "ui|%s|mb=%s|comment=%s" % (what, first_mb >= 0, "#" in text)})
+    # the tokenizers' claim discipline (spec/Claims.tla): model check + validation of the recorded claims; non-gating
+    from props import claims_part
+    claims_part.run(rep, quick)
